@@ -145,12 +145,14 @@ def gen_table(numtype):
         "S2": ("scale", (third, 2), Affine(F(1, 3), 0, 0, 0, 2, 0)),
         "r1": ("rotate", (90, True), Affine(0, -1, 0, 1, 0, 0)),
         "R1": ("rotate", (-90, True), Affine(0, 1, 0, -1, 0, 0)),
+        "f1": ("move", (1000, 2000), Affine(1, 0, 1000, 0, 1, 2000)),
+        "F1": ("move", (-1000, -2000), Affine(1, 0, -1000, 0, 1, -2000)),
         "r2": ("rotate", (math.atan2(3, 4),), ROT345),
         "R2": ("rotate", (-math.atan2(3, 4),), ROT345.inverse()),
     }
 
 
-EXACT_GENS = {"m1", "M1", "m2", "M2", "s1", "S1", "s2", "S2"}
+EXACT_GENS = {"m1", "M1", "m2", "M2", "s1", "S1", "s2", "S2", "f1", "F1"}
 
 
 def frame_affine(word, numtype="frac"):
